@@ -115,9 +115,11 @@ extern int mpt_stream_sync(MPT_STRUCT(stream) *srm, size_t idlen, const MPT_STRU
 		}
 		/* handle message (and deregister handler) */
 		if ((mc = mpt_command_find(cmd, len, id))) {
-			ret = mc->cmd(mc->arg, &msg);
+			/* unlink before call: handler may arm new requests (slots move, table may be replaced) */
+			int (*fcn)(void *, void *) = mc->cmd;
+			void *arg = mc->arg;
 			mc->cmd = 0;
-			--count;
+			ret = fcn(arg, &msg);
 		}
 		/* find fallback command */
 		else if ((mc = mpt_command_find(cmd, len, 0))) {
@@ -125,6 +127,16 @@ extern int mpt_stream_sync(MPT_STRUCT(stream) *srm, size_t idlen, const MPT_STRU
 		}
 		else {
 			ret = 0;
+		}
+		/* handler may have changed the table */
+		cmd = 0;
+		len = count = 0;
+		if (arr->_buf) {
+			cmd = (void *) (arr->_buf + 1);
+			len = arr->_buf->_used / sizeof(*cmd);
+			for (pos = 0; pos < len; ++pos) {
+				if (cmd[pos].cmd) ++count;
+			}
 		}
 		/* advance to next message */
 		mpt_queue_recv(&srm->_rd);
